@@ -22,3 +22,11 @@ def body(rec, c):
 
 CHECKS = [Check("history", body, lambda: {"c": config_case(**KW)}, quick=10, thorough=160, quick_shards=16,
                 thorough_shards=16, shrink_quick=False)]
+
+from . import C09_activator  # noqa: E402  (direct part: the tag activator against a model of its documented semantics)
+CHECKS = CHECKS + C09_activator.CHECKS
+RULE += (" Sub-check activator_model (no run): generated wirings of 3-7 taggers with arbitrary create/trash/activate/"
+         "deactivate lists on the real TagActivator and Tagger classes (stub in-state generators and handlers), 4-30 "
+         "legs; oracle = model of the documented semantics (pools of running / not-running handlers, trash then switch "
+         "then create, TagActivatorError exactly when a pool is exhausted). Non-trivial: a history with a deactivated "
+         "tagger.")
